@@ -53,8 +53,8 @@ func mhOf(b int) multihash.Multihash {
 		code = multihash.BLAKE2B_MIN + 31 // blake2b-256
 	}
 	d := data(b)
-	if code == multihash.IDENTITY && len(d) < 4 {
-		d = append(d, 1, 2, 3, 4) // identity digests must be >= 4 bytes for the index
+	if code == multihash.IDENTITY {
+		d = blockData(b)
 	}
 	h, err := multihash.Sum(d, code, -1)
 	if err != nil {
@@ -63,10 +63,12 @@ func mhOf(b int) multihash.Multihash {
 	return h
 }
 
+// blockData: identity-hashed blocks all start with the same four bytes, so their digests (= the data) share the
+// index bucket and the stored key prefix; only the full-key comparison tells them apart.
 func blockData(b int) []byte {
 	d := data(b)
-	if b%4 == 2 && len(d) < 4 {
-		d = append(d, 1, 2, 3, 4)
+	if b%4 == 2 {
+		d = append([]byte{9, 9, 9, 9, byte(b)}, d...)
 	}
 	return d
 }
